@@ -106,6 +106,23 @@ theorem C15_model_exts_valid : ValidExt Gen.ImageGen.extBmp ∧ ValidExt Gen.Ima
   simp only [Image.rawExt, List.mem_append, not_or, List.mem_singleton]
   exact ⟨⟨⟨⟨⟨⟨by decide, dec_no_slash bits⟩, by decide⟩, dec_no_slash w⟩, by decide⟩, dec_no_slash h⟩, by decide⟩
 
+/-- Whatever integers the image dictionary gives for bits, width and height — negative ones included —
+    the `.<bits>.<w>x<h>.img` suffix of a raw dump consists of digits, `-`, `.`, `x` and letters: it
+    cannot add a path separator after the name has been sanitised. (Non-numbers make `%d` raise.) -/
+theorem C15_raw_ext_valid (bits w h : Int) : ValidExt (Image.rawExtZ bits w h) := by
+  have hd : ∀ z : Int, ¬ 47 ∈ Image.decInt z := by
+    intro z
+    unfold Image.decInt
+    split
+    · simp only [List.mem_cons, not_or]
+      exact ⟨by decide, dec_no_slash _⟩
+    · exact dec_no_slash _
+  refine ⟨?_, by simp [Image.rawExtZ]; omega⟩
+  simp only [Image.rawExtZ, List.mem_append, not_or, List.mem_singleton]
+  exact ⟨⟨⟨⟨⟨⟨by decide, hd bits⟩, by decide⟩, hd w⟩, by decide⟩, hd h⟩, by decide⟩
+
+example : Image.rawExtZ 4 (-3) 1 = [46, 52, 46, 45, 51, 120, 49, 46, 105, 109, 103] := by decide +kernel
+
 /-- Non-vacuity: the hostile name `../x` with `.._x.bmp` already present. -/
 example : imagePath [47, 111] [46, 46, 47, 120] [46, 98, 109, 112] [[46, 46, 95, 120, 46, 98, 109, 112]] =
     some ([46, 46, 95, 120, 46, 48, 46, 98, 109, 112], [47, 111, 47, 46, 46, 95, 120, 46, 48, 46, 98, 109, 112]) := by
